@@ -10,7 +10,8 @@ for id in $IDS; do
   [ -f $d/patch.diff ] || continue
   pf=$d/patch.diff
   for alt in $d/patch_ported*.diff; do [ -f "$alt" ] && pf=$alt; done
-  ( cd $R && git checkout -q -- . && git apply $(cd - >/dev/null; pwd)/$pf 2>/dev/null ) || { echo "$id: PATCH-DOES-NOT-APPLY"; continue; }
+  H=$(pwd)
+  ( cd $R && git checkout -q -- . && { git apply $H/$pf 2>/dev/null || git apply --3way $H/$pf 2>/dev/null; } && git reset -q ) || { echo "$id: PATCH-DOES-NOT-APPLY"; ( cd $R && git reset -q --hard HEAD ); continue; }
   pid=${id:0:3}; out=$(./check $pid --tier quick 2>&1); rc=$?
   nv=$(echo "$out" | grep -c "^VIOLATION")
   first=$(echo "$out" | grep "^VIOLATION" | head -1 | cut -c1-170)
